@@ -376,9 +376,13 @@ impl TransactionCoordinator {
         let xmin = active.iter().min().copied().unwrap_or(txid);
 
         // xmax is the last committed transaction from PageZero
+        // Transaction ids start at 0, so `last == 0` is ambiguous: "nothing committed yet" or
+        // "only transaction 0 committed". Only the very first transaction may leave xmax unset
+        // (an unset xmax makes every finished transaction visible, later ones included); for
+        // everyone else 0 is a real upper bound: ids above it began after this snapshot.
         let xmax = {
             let last = self.get_last_committed();
-            if last == 0 { None } else { Some(last) }
+            if last == 0 && txid == 0 { None } else { Some(last) }
         };
 
         Ok(Snapshot::new(txid, xmin, xmax, active, aborted))
